@@ -282,11 +282,12 @@ func (c *Check) panicInventory(fs []*Func, r *reachInfo) {
 							return true
 						}
 						nPanic++
+						host := c.P.inlineHost(f)
 						switch {
 						case r.fromEndBlock[f]:
 							c.fail("C20.3", unitConstruct(f, "panic"), x.Pos(), "explicit panic reachable from EndBlocker")
-						case u.complete() && f == u.RF:
-							c.ok("C20.3", unitConstruct(f, "panic"), x.Pos(), "handler-only panic on slash/refund failure: justified by the custody rules (C01, C03) and the slash amount skeleton checked below")
+						case u.complete() && host == u.RF:
+							c.ok("C20.3", unitConstruct(host, "panic"), x.Pos(), "handler-only panic on slash/refund failure: justified by the custody rules (C01, C03) and the slash amount skeleton checked below")
 						case r.fromGenesis[f] && !r.fromHandler[f]:
 							c.ok("C20.3", unitConstruct(f, "panic"), x.Pos(), "genesis import panics on invalid operator input (A-HOST)")
 						default:
